@@ -326,8 +326,10 @@ func (s *c06sys) relModel(now time.Time) string {
 // Canon: heap array (key, deadlines relative to now; overdue deadlines abstracted to their dense
 // rank, which preserves every comparison the code can make) + held keys.
 func (s *c06sys) Canon() string {
-	now := vsched.S.Now
-	snap := s.ap.VerifSnapshotNoLock()
+	return s.Canon2(s.ap.VerifSnapshotNoLock(), vsched.S.Now)
+}
+
+func (s *c06sys) Canon2(snap intermediate.VerifSnap, now time.Time) string {
 	var overdue []int64
 	for _, h := range snap.Heap {
 		for _, t := range []time.Time{h.Active, h.Inactive} {
